@@ -175,12 +175,31 @@ func (c *listInst) Call(ctx context.Context, tid int, op string, args []string) 
 func newClist(kind string, items []int) list.List[int] {
 	cp := append([]int{}, items...)
 	if kind == "linked" {
-		return &list.ConcurrentList[int]{List: list.NewLinkedListOf(cp)}
+		// NewLinkedListOf copies the elements into nodes: the caller's slice is overwritten afterwards
+		l := &list.ConcurrentList[int]{List: list.NewLinkedListOf(cp)}
+		for i := range cp {
+			cp[i] = -7777 - i
+		}
+		return l
 	}
+	// NewArrayListOf is documented to USE the slice it is given: it is handed over, never touched again
 	return &list.ConcurrentList[int]{List: list.NewArrayListOf(cp)}
 }
 
-func newCow(items []int) list.List[int] { return list.NewCopyOnWriteArrayListOf(items) }
+// Both constructors are used.  NewCopyOnWriteArrayListOf is documented to COPY its argument: the caller
+// keeps its slice and overwrites it right after construction, so that a list that aliases the caller's
+// slice shows wrong elements to the first reader / copies them in the first mutator.
+func newCow(items []int) list.List[int] {
+	if len(items) == 0 {
+		return list.NewCopyOnWriteArrayList[int]()
+	}
+	held := append([]int{}, items...)
+	l := list.NewCopyOnWriteArrayListOf(held)
+	for i := range held {
+		held[i] = -7777 - i
+	}
+	return l
+}
 
 // ---- syncx.Map ----
 
